@@ -1,7 +1,7 @@
 (* Property C09: forever jobs are never waited for and never outlive the run.
    Only property theorems here. Model R, level 0 (timing statements: see C12/DESIGN). *)
 From AJ Require Import Common.Util Run.RModel Run.RFacts Run.RFacts2 Run.RInv Run.RInv4 Run.RInv5 Run.RMon Run.RProps1
-  Run.RProps2 Run.RProps3 Props.RExample Run.RSchedDef Run.RSched Run.RSchedF.
+  Run.RProps2 Run.RProps3 Props.RExample Run.RSchedDef Run.RSched Run.RSchedF Run.RSolveF Run.RSchedTopF.
 
 (* The main wake whose report completes the non-forever jobs leaves the loop at once with the
    success path: in the state after it, everything still pending is forever (third conjunct of
@@ -106,11 +106,29 @@ Theorem C09_phases_on_scheduleF : forall c S E h s,
 Proof. exact phases_on_scheduleF. Qed.
 Print Assumptions C09_phases_on_scheduleF.
 
+(* the same with the instants computed by the executable solver solveF (proved complete: RSolveF.v):
+   no hypothesis about S and E is left; no_tie_ok and slackF_ok are boolean conditions on the tree *)
+Theorem C09_runs_on_computed_scheduleF : forall c h s, wf c = true -> plainF c = true ->
+  no_tie_ok c = true -> slackF_ok c = true -> Reach 3 c h s -> calm c (EofF c) s ->
+  (forall x, x < njobs c -> x <> 0 -> on_scheduleF c (SofF c) (EofF c) s x) /\
+  (forall n f, n < njobs c -> j_sched (jc c n) = true -> In f (members c n) -> fvr c f = true ->
+     (MF c (SofF c) (EofF c) n < now s)%N ->
+     st (Jb s f) <> Running /\ st (Jb s f) <> Idle /\ st (Jb s f) <> Created).
+Proof. exact runs_on_computed_scheduleF. Qed.
+Print Assumptions C09_runs_on_computed_scheduleF.
+
+Theorem C09_scheduleF_unique : forall c S E S' E', wf c = true -> plainF c = true ->
+  is_scheduleF c S E -> is_scheduleF c S' E' -> forall x, x < njobs c -> S x = S' x /\ E x = E' x.
+Proof. exact scheduleF_unique. Qed.
+Print Assumptions C09_scheduleF_unique.
+
 (* non-vacuity: RSchedF.ExampleF, root{a: 2 s; f forever never-ending, cancellation 1 s; g forever 1 s}:
    its history is accepted at level 3, the tables pass the three boolean checks *)
 Example C09_schedule_nonvacuous :
   wf RSchedF.ExampleF.ex_c = true /\ plainF RSchedF.ExampleF.ex_c = true /\
-  accept 3 RSchedF.ExampleF.ex_c RSchedF.ExampleF.ex_h = true.
+  accept 3 RSchedF.ExampleF.ex_c RSchedF.ExampleF.ex_h = true /\
+  no_tie_ok RSchedF.ExampleF.ex_c = true /\ slackF_ok RSchedF.ExampleF.ex_c = true /\
+  map (EofF RSchedF.ExampleF.ex_c) [0; 1; 2; 3] = [4; 2; 3; 1]%N.
 Proof. repeat split; vm_compute; reflexivity. Qed.
 
 Example C09_nonvacuous :
